@@ -2,7 +2,7 @@
 shape description (c03::Spec) that the reference interpreter and the conservation monitor work on."""
 import os
 
-CPPT = {'Int': 'int', 'Unsigned': 'unsigned', 'Str': 'std::string', 'Color': 'c03::color'}
+CPPT = {'Int': 'int', 'Unsigned': 'unsigned', 'Str': 'std::string', 'Color': 'c03::color', 'Double': 'double'}
 
 
 def lit(vt, v):
@@ -12,12 +12,20 @@ def lit(vt, v):
         return 'c03::color::%s' % v
     if vt == 'Unsigned':
         return '%sU' % v
+    if vt == 'Double':
+        return '(%s)' % v  # a C++ expression
     return str(v)
 
 
 def canon(vt, v):
     if vt == 'Str':
         return '\\"%s\\"' % v
+    if vt == 'Double':
+        h = float(eval(v)).hex()  # printf("%a") prints the same digits without trailing zeros
+        mant, exp = h.split('p')
+        if '.' in mant:
+            mant = mant.rstrip('0').rstrip('.')
+        return mant + 'p' + exp
     return str(v)
 
 
@@ -171,6 +179,9 @@ def shapes():
         ('flag_int', flag('lb', 'f', 'flag', 'Int', 10, 20)),
         ('flag_string', flag('lb', 'f', 'flag', 'Str', 'on', 'off')),
         ('flag_color', flag('lb', '', 'flag', 'Color', 'red', 'blue')),
+        # distinct values whose default stream output is the same text ("0.3"): a well-formed definition
+        ('flag_double_printing_alike', flag('lb', 'f', 'flag', 'Double', '0.1 + 0.2', '0.3')),
+        ('prod(flag_double_printing_alike,arg)', prod(flag('lb', 'f', 'flag', 'Double', '1.000000001', '1.000000002'), A())),
         ('option_int', opt_o()),
         ('option_string_default', opt_o('lc', 'Str', 'dflt')),
         ('option_long_only_default', optd()),
